@@ -1,10 +1,10 @@
 //! C12 — the internal-git profile machinery, called in-process.
 //! Real functions: first_git_subcommand_index, strip_profile_conflicts, profile_options,
 //! args_with_internal_git_profile, args_with_disabled_hooks_if_needed (verif shims in
-//! src/git/repository.rs), Repository::global_args_for_exec via find_repository_in_path.
+//! src/git/repository.rs), find_repository + Repository::global_args_for_exec (normalisation of global args).
 use crate::sexp::{self, cps, sym, Sx};
 use git_ai::git::repository::{
-    disable_internal_git_hooks, verif_args_with_disabled_hooks_if_needed,
+    disable_internal_git_hooks, find_repository, verif_args_with_disabled_hooks_if_needed,
     verif_args_with_internal_git_profile, verif_first_git_subcommand_index, verif_profile_options,
     verif_strip_profile_conflicts, InternalGitProfile,
 };
@@ -78,11 +78,24 @@ pub fn pins(body: &str) -> String {
     show_strs(&v).show()
 }
 
+/// in: CWD GLOBAL_ARGS   out: err | (ok ARGV)  — find_repository started in CWD, then global_args_for_exec
+pub fn normalize(body: &str) -> String {
+    let xs = sexp::parse_many(body).expect("sexp");
+    let cwd = xs[0].string();
+    let ga = strs_of(&xs[1]);
+    std::env::set_current_dir(&cwd).expect("chdir");
+    match find_repository(&ga) {
+        Ok(repo) => Sx::L(vec![sym("ok"), show_strs(&repo.global_args_for_exec())]).show(),
+        Err(_) => "err".to_string(),
+    }
+}
+
 pub fn dispatch(mode: &str) -> Option<fn(&str) -> String> {
     match mode {
         "c12-profile" => Some(profile),
         "c12-effective-args" => Some(effective_args),
         "c12-pins" => Some(pins),
+        "c12-normalize" => Some(normalize),
         _ => None,
     }
 }
